@@ -25,6 +25,22 @@ import (
 // ErrInjected is the sentinel every injected fatal fault wraps.
 var ErrInjected = errors.New("simnet: injected fault")
 
+// timeoutErr is a failure whose error is ALSO of the deadline/timeout kind (a send or setsockopt that times out):
+// still a failed operation, not "no packet yet".
+type timeoutErr struct{}
+
+func (timeoutErr) Error() string   { return "simnet: injected fault (i/o timeout)" }
+func (timeoutErr) Timeout() bool   { return true }
+func (timeoutErr) Temporary() bool { return true }
+func (timeoutErr) Is(t error) bool { return t == ErrInjected || t == os.ErrDeadlineExceeded }
+
+func injErr(what, class string) error {
+	if class == "fatal-timeout" {
+		return fmt.Errorf("%s: %w", what, timeoutErr{})
+	}
+	return fmt.Errorf("%s: %w", what, ErrInjected)
+}
+
 type Meta struct {
 	ToTTL   int        `json:"to_ttl"` // the probe TTL this packet answers (-1: none)
 	Genuine bool       `json:"genuine"`
@@ -152,7 +168,7 @@ type Sink struct {
 func (n *Net) newSink(addr netip.Addr) (packets.Sink, error) {
 	vsched.Yield("NewSink")
 	if c := n.fault("NewSink", len(n.Sinks)); c != "" {
-		return nil, fmt.Errorf("raw socket: %w", ErrInjected)
+		return nil, injErr("raw socket", c)
 	}
 	s := &Sink{ID: len(n.Sinks), n: n, Addr: addr, Creator: vsched.CurrentThread()}
 	n.Sinks = append(n.Sinks, s)
@@ -170,7 +186,7 @@ func (s *Sink) WriteTo(buf []byte, addr netip.AddrPort) error {
 		return os.ErrClosed
 	}
 	if c := n.fault("WriteTo", s.ID); c != "" {
-		return fmt.Errorf("sendto: %w", ErrInjected)
+		return injErr("sendto", c)
 	}
 	s.Writes++
 	raw := append([]byte{}, buf...)
@@ -280,7 +296,7 @@ type Source struct {
 func (n *Net) newSource() (packets.Source, error) {
 	vsched.Yield("NewSource")
 	if c := n.fault("NewSource", len(n.Sources)); c != "" {
-		return nil, fmt.Errorf("af_packet socket: %w", ErrInjected)
+		return nil, injErr("af_packet socket", c)
 	}
 	s := &Source{ID: len(n.Sources), n: n, deadline: -1}
 	n.Sources = append(n.Sources, s)
@@ -299,7 +315,7 @@ func (s *Source) SetReadDeadline(t time.Time) error {
 		return os.ErrClosed
 	}
 	if c := s.n.fault("SetReadDeadline", s.ID); c != "" {
-		return fmt.Errorf("setsockopt: %w", ErrInjected)
+		return injErr("setsockopt", c)
 	}
 	if t.IsZero() {
 		s.deadline = -1
@@ -379,7 +395,7 @@ func (s *Source) SetPacketFilter(spec packets.PacketFilterSpec) error {
 		return os.ErrClosed
 	}
 	if c := s.n.fault("SetPacketFilter", s.ID); c != "" {
-		return fmt.Errorf("attach filter: %w", ErrInjected)
+		return injErr("attach filter", c)
 	}
 	s.Filters = append(s.Filters, spec)
 	if spec.FilterType == packets.FilterTypeNone {
